@@ -130,6 +130,13 @@ impl<T> RawTable<T> {
     /// current elements, as well as some additional elements due to incremental resizing.
     #[cfg_attr(feature = "inline-more", inline)]
     pub(crate) fn shrink_to(&mut self, min_size: usize, hasher: impl Fn(&T) -> u64) {
+        // An old table that was emptied through `erase` or `replace_bucket_with` is still
+        // around, but there is nothing left to move out of it: the resize is complete.
+        // Drop it now -- we reserve no room for it below, and `insert` relies on there
+        // being no leftovers whenever the main table is full.
+        if self.leftovers.as_ref().map_or(false, |lo| lo.table.len() == 0) {
+            let _ = self.leftovers.take();
+        }
         // Calculate the minimal number of elements that we need to reserve
         // space for.
         let mut need = self.table.len();
